@@ -1,5 +1,13 @@
-import SaoVerif.Generated.Skeleton
-import SaoVerif.Spec.SkeletonExpected
+import SaoVerif.Skeleton.x_sao_keeper_msg_server_complete_go
+import SaoVerif.Skeleton.x_sao_keeper_msg_server_cancel_go
+import SaoVerif.Skeleton.x_sao_keeper_msg_server_ready_go
+import SaoVerif.Skeleton.x_sao_keeper_msg_server_store_go
+import SaoVerif.Skeleton.x_sao_keeper_msg_server_migrate_go
+import SaoVerif.Skeleton.x_node_keeper_msg_server_reset_go
+import SaoVerif.Skeleton.x_node_keeper_msg_server_claim_reward_go
+import SaoVerif.Skeleton.x_node_keeper_msg_server_add_vstorage_go
+import SaoVerif.Skeleton.x_node_keeper_msg_server_remove_vstorage_go
+import SaoVerif.Skeleton.x_did_keeper_did_management_go
 /-!
 # C10 — the decision logic of the anchor files is the one that was modelled
 
@@ -7,9 +15,10 @@ The extractor (harness/cmd/extract) regenerates, on every run and from the tree 
 function: its branching constructs in source order, each guard with its condition and with how its branch ends (`return <err>`,
 `continue`, `panic`, …). The hand-written model mirrors exactly these decisions (its `…Pre` / `…Guards` functions are the
 guards of the handlers, in their order). This theorem says that for the files the property is anchored in
-(x/sao/keeper/msg_server_complete.go, x/sao/keeper/msg_server_cancel.go, x/sao/keeper/msg_server_ready.go, x/sao/keeper/msg_server_store.go, x/sao/keeper/msg_server_migrate.go, x/node/keeper/msg_server_reset.go, x/node/keeper/msg_server_claim_reward.go, x/node/keeper/msg_server_add_vstorage.go, x/node/keeper/msg_server_remove_vstorage.go, x/did/keeper/did_management.go) the regenerated skeletons equal the ones the model was written against. A change of a guard, of its
-order, or a new or removed branch breaks it: the correspondence then has to be re-established (the check searches the
-histories for a failing input and reports the violation either way).
+(x/sao/keeper/msg_server_complete.go, x/sao/keeper/msg_server_cancel.go, x/sao/keeper/msg_server_ready.go, x/sao/keeper/msg_server_store.go, x/sao/keeper/msg_server_migrate.go, x/node/keeper/msg_server_reset.go, x/node/keeper/msg_server_claim_reward.go, x/node/keeper/msg_server_add_vstorage.go, x/node/keeper/msg_server_remove_vstorage.go, x/did/keeper/did_management.go) the regenerated skeletons equal the ones the model was written against
+(one kernel-evaluated equality per source file, `SaoVerif/Skeleton/<file>.lean`). A change of a guard, of its order, or a new or
+removed branch breaks it: the correspondence then has to be re-established (the check searches the histories for a failing
+input and reports the violation either way).
 -/
 namespace SaoVerif
 
@@ -34,6 +43,6 @@ theorem C10_decision_skeleton_as_modelled :
      Expected.Skel.x_node_keeper_msg_server_add_vstorage_go,
      Expected.Skel.x_node_keeper_msg_server_remove_vstorage_go,
      Expected.Skel.x_did_keeper_did_management_go] := by
-  decide +kernel
+  rw [skel_x_sao_keeper_msg_server_complete_go, skel_x_sao_keeper_msg_server_cancel_go, skel_x_sao_keeper_msg_server_ready_go, skel_x_sao_keeper_msg_server_store_go, skel_x_sao_keeper_msg_server_migrate_go, skel_x_node_keeper_msg_server_reset_go, skel_x_node_keeper_msg_server_claim_reward_go, skel_x_node_keeper_msg_server_add_vstorage_go, skel_x_node_keeper_msg_server_remove_vstorage_go, skel_x_did_keeper_did_management_go]
 
 end SaoVerif
